@@ -469,7 +469,8 @@ def _bcast(comm, obj, root):
     if dtype is np.ndarray:
         shape, dtype = (obj.shape, obj.dtype) if master else (None, None)
         shape, dtype = comm.bcast((shape, dtype), root=root)
-        data = obj if master else np.empty(shape, dtype)
+        # MPI transfers the raw memory: the receivers assume C-style contiguous arrays
+        data = np.ascontiguousarray(obj) if master else np.empty(shape, dtype)
         comm.Bcast(data, root=root)
         return data
     elif dtype is Field:
